@@ -18,6 +18,12 @@ inductive Variant where
   | asFound | repaired
   deriving DecidableEq, Repr
 
+/-- the two defect sites of this file: F36 (`max_length or MAXREPEAT`) and F35 (no `min <= max` test for a bare atom) -/
+structure RxV where
+  zeroMax : Variant := .asFound
+  atom : Variant := .asFound
+  deriving DecidableEq, Repr
+
 /-- regular expressions below the top level -/
 inductive Re (α : Type) where
   | eps
@@ -68,7 +74,7 @@ def buildSize (rlo rhi : Nat) (lo hi : Option Nat) : Nat × Nat :=
   (a, b)
 
 /-- `_update_quantifier(op, value, …)` for one item (and whether its text was re-rendered); `none` = InternalError -/
-def updateItem (x : Item α) (lo hi : Option Nat) : Option (Item α × Bool) :=
+def updateItem (v : RxV) (x : Item α) (lo hi : Option Nat) : Option (Item α × Bool) :=
   match x with
   | .rep rlo rhi body =>
     if (buildSize rlo rhi lo hi).1 > (buildSize rlo rhi lo hi).2 then some (x, false)
@@ -79,7 +85,9 @@ def updateItem (x : Item α) (lo hi : Option Nat) : Option (Item α × Bool) :=
       let a' := match lo with | none => 1 | some l => max l 1
       match hi with
       | none => some (.rep a' MAXREPEAT (.atom a), true)
-      | some h => if h < a' then none else some (.rep a' h (.atom a), true)
+      | some h =>
+        if h < a' then (match v.atom with | .asFound => none | .repaired => some (x, false))
+        else some (.rep a' h (.atom a), true)
   | _ => some (x, false)
 
 /-- the inner loop of `find_valid_combination`: try `len, len+1, …` (`count` candidates), `k` = the search for the rest -/
@@ -117,13 +125,13 @@ def isExact : Option Nat → Option Nat → Bool
   | _, _ => false
 
 /-- `remaining_max = max_length or MAXREPEAT` (as found) / `MAXREPEAT if max_length is None else max_length` (repaired) -/
-def remMaxOf (v : Variant) : Option Nat → Nat
+def remMaxOf (v : RxV) : Option Nat → Nat
   | none => MAXREPEAT
-  | some h => if h == 0 && v == .asFound then MAXREPEAT else h
+  | some h => if h == 0 && v.zeroMax == .asFound then MAXREPEAT else h
 
 /-- `_distribute_length_constraints(bounds, min_length, max_length)`.
     Defect site F36: `remaining_max = max_length or MAXREPEAT` reads a maximum of 0 as "none". -/
-def distribute (v : Variant) (bounds : List (Nat × Nat)) (lo hi : Option Nat) : Option (List (Nat × Nat)) :=
+def distribute (v : RxV) (bounds : List (Nat × Nat)) (lo hi : Option Nat) : Option (List (Nat × Nat)) :=
   if isExact lo hi then
     match findComb bounds (lo.getD 0) with
     | some d => some (d.map fun l => (l, l))
@@ -153,7 +161,7 @@ def subLen (x : Option Nat) (fixed : Nat) : Option (Option Nat) :=
   | some l => if l < fixed then none else some (some (l - fixed))
 
 /-- `_handle_anchored_pattern` on `first :: middle ++ [last]` -/
-def handleAnchored (v : Variant) (first : Item α) (middle : List (Item α)) (last : Item α) (lo hi : Option Nat) :
+def handleAnchored (v : RxV) (first : Item α) (middle : List (Item α)) (last : Item α) (lo hi : Option Nat) :
     List (Item α) × Bool :=
   match subLen lo (countLits middle), subLen hi (countLits middle) with
   | some lo', some hi' =>
@@ -164,15 +172,15 @@ def handleAnchored (v : Variant) (first : Item α) (middle : List (Item α)) (la
   | _, _ => (first :: middle ++ [last], false)
 
 /-- `_handle_parsed_pattern` -/
-def handleParsed (v : Variant) (items : List (Item α)) (lo hi : Option Nat) : Res α :=
+def handleParsed (v : RxV) (items : List (Item α)) (lo hi : Option Nat) : Res α :=
   match items with
-  | [x] => match updateItem x lo hi with | some (y, w) => .ok [y] w | none => .internalError
+  | [x] => match updateItem v x lo hi with | some (y, w) => .ok [y] w | none => .internalError
   | [a, x] =>
-    if a.isAt then match updateItem x lo hi with | some (y, w) => .ok [a, y] w | none => .internalError
-    else if x.isAt then match updateItem a lo hi with | some (y, w) => .ok [y, x] w | none => .internalError
+    if a.isAt then match updateItem v x lo hi with | some (y, w) => .ok [a, y] w | none => .internalError
+    else if x.isAt then match updateItem v a lo hi with | some (y, w) => .ok [y, x] w | none => .internalError
     else .ok items false
   | [a, x, b] =>
-    if a.isAt && b.isAt then match updateItem x lo hi with | some (y, w) => .ok [a, y, b] w | none => .internalError
+    if a.isAt && b.isAt then match updateItem v x lo hi with | some (y, w) => .ok [a, y, b] w | none => .internalError
     else .ok items false
   | a :: x :: y :: z :: rest =>
     -- len > 3
@@ -186,7 +194,7 @@ def handleParsed (v : Variant) (items : List (Item α)) (lo hi : Option Nat) : R
   | [] => .ok items false
 
 /-- `update_quantifier(pattern, min_length, max_length)` on the parse tree of a valid, non-empty pattern -/
-def updateQuantifier (v : Variant) (items : List (Item α)) (lo hi : Option Nat) : Res α :=
+def updateQuantifier (v : RxV) (items : List (Item α)) (lo hi : Option Nat) : Res α :=
   if (lo == none || lo == some 0) && hi == none then .ok items false
   else handleParsed v items lo hi
 
